@@ -163,7 +163,7 @@ theorem tooLong_of (P : Params K) (lineW : K) (it : Item K) (W Y Z aw ay az : K)
 /-- a node that `mainLoop` deactivates at a break that is not forced has a line whose least length
 (without the width of the penalty) exceeds the line width -/
 theorem deact_imp (cx : Ctx K) (a : Node K) (hnf : isForced cx.P cx.it = false)
-    (hY : a.d.y ≤ cx.Y) (hZ : a.d.z ≤ cx.Z) (hinf : 0 < cx.P.infinity) (hW : 0 < cx.lineW)
+    (hY : a.d.y ≤ cx.Y) (hZ : a.d.z ≤ cx.Z) (hinf : 0 < cx.P.infinity) (hW : 0 < cx.lineW) (heps : 0 ≤ cx.P.eps)
     (hs : adjRatio cx.P cx.lineW cx.it cx.W cx.Y cx.Z a.d.w a.d.y a.d.z =
       adjRatio0 cx.P cx.lineW cx.it cx.W cx.Y cx.Z a.d.w a.d.y a.d.z)
     (h : deactivates cx a (adjRatio cx.P cx.lineW cx.it cx.W cx.Y cx.Z a.d.w a.d.y a.d.z) = true) :
@@ -173,7 +173,11 @@ theorem deact_imp (cx : Ctx K) (a : Node K) (hnf : isForced cx.P cx.it = false)
   rw [hnf, Bool.or_false] at h
   by_cases hp : (cx.it.ty = Ty.penalty && !(cx.it.width == k 0)) = true
   · rw [if_pos hp] at h
-    simpa using h
+    have h' : cx.lineW * (1 + cx.P.eps) < cx.W - a.d.w - (cx.Z - a.d.z) := by simpa [k1] using h
+    have : cx.lineW ≤ cx.lineW * (1 + cx.P.eps) := by
+      have := mul_le_mul_of_nonneg_left (show (1 : K) ≤ 1 + cx.P.eps by linarith) (le_of_lt hW)
+      linarith
+    linarith
   · rw [if_neg hp] at h
     have hpen : cx.it.ty = Ty.penalty → cx.it.width = 0 := by
       intro ht
